@@ -753,7 +753,8 @@ static void Disassemble_4004(
 }
 
 static void SwitchTo_4004(void) {
-    Disassemble = Disassemble_4004;
+    Disassemble     = Disassemble_4004;
+    DasmIntelSyntax = True;
 }
 
 void deco4004_init(void) {
